@@ -119,6 +119,21 @@ func (p *Path) Of(v ssa.Value) *Expr {
 	return p.env.of(v)
 }
 
+// Load returns the value held at address addr when instruction at executes on
+// the path (the last store before it, in the frame the address belongs to).
+func (p *Path) Load(addr ssa.Value, at ssa.Instruction) *Expr {
+	env := p.env
+	if fn := addr.Parent(); fn != nil && env.fn != fn {
+		for i := len(p.segs) - 1; i >= 0; i-- {
+			if e := p.segs[i].env; e != nil && e.fn == fn {
+				env = e
+				break
+			}
+		}
+	}
+	return env.loadAt(addr, at)
+}
+
 // Visited reports whether block b lies on the path.
 func (p *Path) Visited(b *ssa.BasicBlock) bool {
 	for _, x := range p.Blocks {
@@ -285,11 +300,15 @@ func (pe *pathEnum) instrs(c *seeCtx, b *ssa.BasicBlock, i int, st *pstate, emit
 				!c.stack[callee] && c.depth < 6 {
 				// Enumerate callee paths.
 				n := c.child(callee)
+				// what the arguments point to is observed at the call
+				prevAt := c.defAt
+				c.defAt = call
 				for pi, p := range callee.Params {
 					if pi < len(call.Call.Args) {
 						n.params[p] = c.of(call.Call.Args[pi])
 					}
 				}
+				c.defAt = prevAt
 				next := i + 1
 				any := false
 				pe.walkOpts(n, callee, pe.opts.EmitCut, func(cp *Path) {
